@@ -476,8 +476,10 @@ def t_str(I, args, kw, node):
         if I.ctx.choose([True, False], "decodes"):
             return SFun("str", [v] + list(args[1:]), str)
         raise _sx().SymRaise(UnicodeDecodeError, "str()")
-    if L.any_z3(v) or isinstance(v, (SBytes, SObj, SList)):
-        hook = getattr(I.summ, "str_of_symbolic", None)
+    if L.any_z3(v) or isinstance(v, (SBytes, SObj, SList, SOpaque)):
+        from .summaries import markup_mode, markup_piece
+        if markup_mode(I):
+            return markup_piece(I, v, "s")
         return "<str>"
     return str(v)
 
